@@ -592,7 +592,12 @@ pub fn oracle_c10_keepalive(cfg: &EwCfg, tr: &EwTrace) -> Vec<Violation> {
             if let Some(e) = evs.iter().find(|e| e.ev == Ev::Error(0)) {
                 // keep-alive frames are never sent more often than every 2 s (MIN_SYNC_TIMEOUT_MS), whatever interval is configured
                 let t_min = cfg.clients[i].active_timeout_ms.min(cfg.server.active_timeout_ms);
-                let sig = if t_min <= 2000 + 3 * cadence { "C10.keepalive:active-timeout-not-above-the-2s-keepalive-floor" } else { "C10.keepalive" };
+                // D16: time-outs at or below the 2 s keep-alive floor (application loops of at most a second; slower loops are D32's business)
+                // D32: flush() decides about a keep-alive with the clock of the previous step(), so an application that only calls step() sends one
+                //      every second step at best; with steps further apart than half the time-out (but closer than the time-out) the peer gives up
+                let sig = if cadence <= 1000 && t_min <= 2000 + 3 * cadence { "C10.keepalive:active-timeout-not-above-the-2s-keepalive-floor" }
+                          else if cadence > 1000 && cadence < t_min && 2 * cadence >= t_min { "C10.keepalive:steps-further-apart-than-half-the-timeout-and-keepalive-decided-on-the-previous-steps-clock" }
+                          else { "C10.keepalive" };
                 out.push(viol("C10.keepalive", sig.into(), format!("{} {}: Error(Timeout) at t={} ms on a loss-free network with keepalive enabled (client keepalive {} ms / timeout {} ms, server keepalive {} ms / timeout {} ms, step cadence {} ms)", who, i, e.t_ms, cfg.clients[i].keepalive_interval_ms, cfg.clients[i].active_timeout_ms, cfg.server.keepalive_interval_ms, cfg.server.active_timeout_ms, cadence)));
             }
         }
